@@ -17,3 +17,37 @@ Theorem C15_cert_JavaScript : forallb pattern_ok patterns_JavaScript = true. Pro
 Theorem C15_cert_Python : forallb pattern_ok patterns_Python = true. Proof. vm_compute. reflexivity. Qed.
 Theorem C15_cert_TypeScript : forallb pattern_ok patterns_TypeScript = true. Proof. vm_compute. reflexivity. Qed.
 Print Assumptions C15_cert_TypeScript.
+
+(* ---------- from certificates to the property ---------- *)
+From Verif Require Import UnambProofs.
+
+(* generic: a pattern that passes the check can never raise the ambiguity error, on any token sequence *)
+Theorem C15_check_sound : forall e w, unambiguous_check e = true ->
+  tk_match e w <> Err ValueErrorAmbiguous /\
+  tk_starts_with e w <> Err ValueErrorAmbiguous /\
+  (forall f, (forall c, f c <> Err ValueErrorAmbiguous) -> tk_find_all e w f <> Err ValueErrorAmbiguous).
+Proof. exact unambiguous_check_sound. Qed.
+
+Lemma all_languages_certified : forall l, forallb pattern_ok (lang_patterns l) = true.
+Proof.
+  intros []; [exact C15_cert_C | exact C15_cert_Cpp | exact C15_cert_CSharp | exact C15_cert_Java
+             | exact C15_cert_JavaScript | exact C15_cert_Python | exact C15_cert_TypeScript].
+Qed.
+
+(* every language's header pattern and follow-up pattern, every token sequence:
+   neither the search for headers nor the follow-up test can raise the ambiguity error *)
+Theorem C15_all : forall l e fb (w : list token),
+  In (e, fb) (lang_patterns l) ->
+  (forall f, (forall c, f c <> Err ValueErrorAmbiguous) -> tk_find_all e w f <> Err ValueErrorAmbiguous) /\
+  (forall f, fb = Some f -> tk_starts_with f w <> Err ValueErrorAmbiguous).
+Proof.
+  intros l e fb w Hin.
+  pose proof (all_languages_certified l) as Hc. rewrite forallb_forall in Hc.
+  specialize (Hc _ Hin). unfold pattern_ok in Hc. cbn [fst snd] in Hc.
+  apply andb_prop in Hc as [Hc Hf]. apply andb_prop in Hc as [Hu _].
+  split.
+  - apply (C15_check_sound e w Hu).
+  - intros f ->. apply andb_prop in Hf as [Hf _]. apply (C15_check_sound f w Hf).
+Qed.
+Print Assumptions C15_check_sound.
+Print Assumptions C15_all.
